@@ -50,7 +50,24 @@ def _chain_from_iterable(x):
     return list(itertools.chain.from_iterable(x))
 
 
-_PURE_BUILTINS = {"enumerate": lambda *a: list(enumerate(*a)), "zip": lambda *a: list(zip(*a)), "range": lambda *a: list(range(*a)), "sorted": sorted, "reversed": lambda x: list(reversed(x)),
+def _zip_longest(*a):
+    import itertools
+
+    return list(itertools.zip_longest(*a))
+
+
+def _next(seq, *default):
+    # generators are folded to lists; next() consumes the head
+    if not isinstance(seq, list):
+        raise _Unknown("next() of a non-sequence witness")
+    if seq:
+        return seq.pop(0)
+    if default:
+        return default[0]
+    raise _Raise("StopIteration")
+
+
+_PURE_BUILTINS = {"tee": lambda x, n=2: tuple(list(x) for _ in range(n)), "zip_longest": _zip_longest, "next": _next, "enumerate": lambda *a: list(enumerate(*a)), "zip": lambda *a: list(zip(*a)), "range": lambda *a: list(range(*a)), "sorted": sorted, "reversed": lambda x: list(reversed(x)),
                   "sum": sum, "any": any, "all": all, "bin": bin, "hex": hex, "oct": oct, "chr": chr, "ord": ord, "divmod": divmod, "pow": pow, "int": int, "float": float, "str": str, "len": len, "bool": bool, "min": min, "max": max, "abs": abs, "round": round, "list": list, "tuple": tuple, "bytes": bytes, "set": set, "dict": dict}
 
 
@@ -64,6 +81,15 @@ def _has_unknown(v, depth=0):
     if isinstance(v, dict):
         return any(_has_unknown(x, depth + 1) for x in v.values())
     return False
+
+
+class BoundMethod:
+    def __init__(self, me, dc, m):
+        self.me, self.dc, self.m = me, dc, m
+
+
+def _is_data_type(ci):
+    return any(k.name in ("DataType", "EnumMap", "Exception", "BaseException") for k in ci.mro()) or any(getattr(b, "id", None) in ("Exception", "NamedTuple") for k in ci.mro() for b in k.node.bases)
 
 
 class Bound:
@@ -139,6 +165,8 @@ class Interp:
     def __init__(self, ctx, module, call_hook: Optional[Callable] = None, max_depth=3, cls=None):
         self.ctx, self.module, self.hook, self.max_depth, self.cls = ctx, module, call_hook, max_depth, cls
         self.steps = 0
+        self.me = None  # the witness instance whose method is being folded (object mode, see new_object / run_method)
+        self.oo_depth = 0
 
     # ------------------------------------------------------------------ expressions
     def ev(self, e, env, depth=0):
@@ -151,47 +179,231 @@ class Interp:
         if isinstance(e, ast.Call):
             # Python evaluates the arguments of a call exactly once; several handlers below may look at them, so they are
             # evaluated here once (side effects such as stream reads must not be repeated) unless the folder decides the call
-            if not self._mentions_obj(e, env):
-                v0 = self.ctx.folder.eval(e, self.module, env=env)
-                if isinstance(v0, frozenset) and isinstance(e.func, ast.Name) and e.func.id == "set":
-                    return set(v0)  # a fresh mutable set (the folder's constants are immutable)
-                if v0 is not UNKNOWN:
-                    return v0
             mine = []
-            for a in list(e.args) + [k.value for k in e.keywords]:
-                if isinstance(a, ast.Starred) or id(a) in pre:
-                    continue
-                try:
-                    pre[id(a)] = self._ev(a, env, depth)
-                except _Unknown as u:
-                    pre[id(a)] = u
-                mine.append(id(a))
+
+            def precache():
+                for a in list(e.args) + [k.value for k in e.keywords]:
+                    if isinstance(a, ast.Starred) or id(a) in pre:
+                        continue
+                    try:
+                        pre[id(a)] = self._ev(a, env, depth)
+                    except _Unknown as u:
+                        pre[id(a)] = u
+                    mine.append(id(a))
+
+            hooked = self.__dict__.setdefault("_hooked", set())
             try:
+                if self.hook is not None and id(e) not in hooked:
+                    # the rule's witnesses come first (a marker for a constructor the folder could also fold)
+                    precache()
+                    r = self.hook(e, env, self)
+                    if r is not UNKNOWN:
+                        return r
+                    hooked.add(id(e))
+                    mine.append(("hooked", id(e)))
+                if not self._mentions_obj(e, env):
+                    v0 = self.ctx.folder.eval(e, self.module, env=env)
+                    if isinstance(v0, frozenset) and isinstance(e.func, ast.Name) and e.func.id == "set":
+                        return set(v0)  # a fresh mutable set (the folder's constants are immutable)
+                    if v0 is not UNKNOWN:
+                        return v0
+                precache()
                 return self._ev(e, env, depth)
             finally:
                 for i in mine:
-                    pre.pop(i, None)
+                    if isinstance(i, tuple):
+                        hooked.discard(i[1])
+                    else:
+                        pre.pop(i, None)
         return self._ev(e, env, depth)
+
+    def _obj_attr(self, o, attr, depth):
+        if attr in o.__dict__:
+            return o.__dict__[attr]
+        ci = o.__dict__.get("_ci")
+        if ci is not None:
+            dc, m = ci.lookup(attr)
+            if isinstance(m, ast.FunctionDef):
+                if any(getattr(d, "id", None) == "property" for d in m.decorator_list):
+                    return self._invoke(dc, m, o, [], {}, depth)
+                return BoundMethod(o, dc, m)
+            if m is not None:
+                v = self.ctx.folder.eval(m, dc.module)
+                if v is not UNKNOWN:
+                    return v
+                raise _Unknown(f"class attribute {ci.name}.{attr} not foldable")
+            raise AttributeError(attr)  # the class family does not provide it: what the interpreted code would raise
+        raise _Unknown(f"attribute .{attr} has no witness value")
+
+    def _invoke(self, dc, m, me, args, kwargs, depth):
+        """Fold method m (defined in class dc) on the witness instance `me`."""
+        if self.oo_depth > 24:
+            raise _Unknown("method nesting too deep")
+        decos = {getattr(d, "id", None) for d in m.decorator_list}
+        params = [a.arg for a in m.args.args]
+        env2 = {}
+        if "staticmethod" in decos:
+            pass
+        elif "classmethod" in decos:
+            env2[params[0]] = ClassRef(me.__dict__["_ci"])
+            params = params[1:]
+        elif decos - {"property"}:
+            raise _Unknown(f"decorated method {m.name}")
+        else:
+            env2[params[0]] = me
+            params = params[1:]
+        args = list(args)
+        if len(args) > len(params):
+            if m.args.vararg is None:
+                raise TypeError("too many positional arguments")
+            env2[m.args.vararg.arg] = tuple(args[len(params):])
+            args = args[:len(params)]
+        elif m.args.vararg is not None:
+            env2[m.args.vararg.arg] = ()
+        env2.update(zip(params, args))
+        extra = {}
+        names = set(params) | {a.arg for a in m.args.kwonlyargs}
+        for k, v in kwargs.items():
+            if k in names:
+                env2[k] = v
+            else:
+                extra[k] = v
+        if m.args.kwarg is not None:
+            env2[m.args.kwarg.arg] = extra
+        elif extra:
+            raise TypeError("unexpected keyword argument")
+        other = Interp(self.ctx, dc.module, self.hook, self.max_depth, dc)
+        other.me, other.oo_depth, other.steps = me, self.oo_depth + 1, self.steps
+        defaults = m.args.defaults
+        allp = [a.arg for a in m.args.args]
+        for p_, d_ in zip(allp[len(allp) - len(defaults):], defaults):
+            if p_ not in env2:
+                env2[p_] = other.ev(d_, {}, depth)
+        for a, d_ in zip(m.args.kwonlyargs, m.args.kw_defaults):
+            if a.arg not in env2 and d_ is not None:
+                env2[a.arg] = other.ev(d_, {}, depth)
+        for p_ in params:
+            if p_ not in env2:
+                raise TypeError(f"missing argument {p_}")
+        try:
+            return other.call(m, env2, depth)
+        finally:
+            self.steps = other.steps
+
+    def construct(self, ci, args, kwargs, depth=0):
+        """A witness instance of class ci: its constructor chain is folded on the given arguments."""
+        o = Obj(_ci=ci)
+        dc, m = ci.lookup("__init__")
+        if isinstance(m, ast.FunctionDef):
+            self._invoke(dc, m, o, args, kwargs, depth)
+        return o
+
+    def _call_args(self, e, env, depth):
+        args = []
+        for a in e.args:
+            if isinstance(a, ast.Starred):
+                args.extend(self.ev(a.value, env, depth))
+            else:
+                args.append(self.ev(a, env, depth))
+        kwargs = {}
+        for k in e.keywords:
+            if k.arg is None:
+                kwargs.update(self.ev(k.value, env, depth))
+            else:
+                kwargs[k.arg] = self.ev(k.value, env, depth)
+        return args, kwargs
+
+    def _method_call(self, e, env, depth):
+        """obj.m(...) / super().m(...) / obj.attr_holding_a_class(...) on witness instances that carry their class."""
+        f = e.func
+        if not isinstance(f, ast.Attribute):
+            return UNKNOWN
+        v = f.value
+        if isinstance(v, ast.Call) and isinstance(v.func, ast.Name) and v.func.id == "super" and not v.args:
+            if self.me is None or self.cls is None:
+                return UNKNOWN
+            mro = self.me.__dict__["_ci"].mro()
+            if self.cls not in mro:
+                return UNKNOWN
+            for k in mro[mro.index(self.cls) + 1:]:
+                if f.attr in k.methods:
+                    args, kwargs = self._call_args(e, env, depth)
+                    return self._invoke(k, k.methods[f.attr], self.me, args, kwargs, depth)
+            if f.attr == "__init__":
+                return None  # object.__init__
+            return UNKNOWN
+        if not self._mentions_obj(v, env) or any(isinstance(x, ast.Call) for x in ast.walk(v)):
+            return UNKNOWN  # (a receiver that is itself a call is left to the other handlers: it must be evaluated only once)
+        try:
+            recv = self.ev(v, env, depth)
+        except _Unknown:
+            return UNKNOWN
+        if not (isinstance(recv, Obj) and "_ci" in recv.__dict__):
+            return UNKNOWN
+        if f.attr in recv.__dict__:
+            target = recv.__dict__[f.attr]
+        else:
+            dc, m = recv.__dict__["_ci"].lookup(f.attr)
+            if isinstance(m, ast.FunctionDef):
+                args, kwargs = self._call_args(e, env, depth)
+                return self._invoke(dc, m, recv, args, kwargs, depth)
+            if m is None:
+                raise AttributeError(f.attr)
+            target = self.ctx.folder.eval(m, dc.module)
+        if isinstance(target, ClassRef):
+            args, kwargs = self._call_args(e, env, depth)
+            return self.construct(target.ci, args, kwargs, depth)
+        if isinstance(target, BoundMethod):
+            args, kwargs = self._call_args(e, env, depth)
+            return self._invoke(target.dc, target.m, target.me, args, kwargs, depth)
+        return UNKNOWN
 
     def _ev(self, e, env, depth=0):
         if isinstance(e, ast.Attribute) and isinstance(e.value, ast.Name) and isinstance(env.get(e.value.id), Obj):
-            o = env[e.value.id]
-            if e.attr in o.__dict__:
-                return o.__dict__[e.attr]
-            raise _Unknown(f"attribute {e.value.id}.{e.attr} has no witness value")
+            return self._obj_attr(env[e.value.id], e.attr, depth)
+        if isinstance(e, ast.Attribute) and not isinstance(e.value, ast.Name) and self._mentions_obj(e.value, env):
+            base = self.ev(e.value, env, depth)
+            if isinstance(base, Obj):
+                return self._obj_attr(base, e.attr, depth)
         if isinstance(e, ast.Attribute) and e.attr in ("decode", "encode") and not self._mentions_obj(e.value, env):
             recv = self.ctx.folder.eval(e.value, self.module, env=env)
             if isinstance(recv, ClassRef):
                 return Bound(recv.ci, e.attr)
         if self._mentions_obj(e, env):
             v = UNKNOWN
+        elif self.hook is not None and isinstance(e, (ast.List, ast.Tuple, ast.Dict, ast.Set, ast.ListComp, ast.GeneratorExp, ast.SetComp)) and any(isinstance(x, ast.Call) for x in ast.walk(e)):
+            v = UNKNOWN  # calls inside a display / comprehension are evaluated one by one so that the rule's witnesses see them
         else:
             v = self.ctx.folder.eval(e, self.module, env=env)
         if v is not UNKNOWN and not (isinstance(e, (ast.Tuple, ast.List, ast.Dict, ast.Set)) and _has_unknown(v)):
             return v
+        if isinstance(e, ast.Compare) and len(e.ops) > 1:
+            left = e.left
+            for op_, right in zip(e.ops, e.comparators):
+                # (operands of the witness functions are side-effect free names / attributes / constants)
+                if not self.ev(ast.copy_location(ast.Compare(left=left, ops=[op_], comparators=[right]), e), env, depth):
+                    return False
+                left = right
+            return True
+        if isinstance(e, ast.Compare) and len(e.ops) == 1 and isinstance(e.ops[0], (ast.Lt, ast.LtE, ast.Gt, ast.GtE)):
+            a, b = self.ev(e.left, env, depth), self.ev(e.comparators[0], env, depth)
+            if all(isinstance(x, (int, float)) for x in (a, b)) or all(isinstance(x, (str,)) for x in (a, b)) or all(isinstance(x, (bytes,)) for x in (a, b)):
+                op = e.ops[0]
+                return a < b if isinstance(op, ast.Lt) else a <= b if isinstance(op, ast.LtE) else a > b if isinstance(op, ast.Gt) else a >= b
+            if any(isinstance(x, (Obj, Stream, Bound)) or x is UNKNOWN for x in (a, b)):
+                raise _Unknown(f"ordering of witness objects: {ast.unparse(e)[:60]}")
+            raise TypeError("unorderable")
         if isinstance(e, ast.Compare) and len(e.ops) == 1:
             a, b = self.ev(e.left, env, depth), self.ev(e.comparators[0], env, depth)
             op = e.ops[0]
+            if isinstance(op, (ast.In, ast.NotIn)) and isinstance(b, ClassRef) and b.ci.has_base_named("EnumMap") and not isinstance(a, (Obj, Stream, Bound)) and a is not UNKNOWN:
+                by_name, rev = self.ctx.folder.enum_tables(b.ci)  # MapMeta.__contains__: str keys lower-cased
+                kk = a.lower() if isinstance(a, str) else a
+                try:
+                    found = kk in rev or (isinstance(kk, str) and kk in by_name)
+                except TypeError:
+                    raise _Raise("TypeError")
+                return found if isinstance(op, ast.In) else not found
             if isinstance(op, ast.Is):
                 return a is b
             if isinstance(op, ast.IsNot):
@@ -215,10 +427,18 @@ class Interp:
                     parts.append(str(self.ev(v_.value, env, depth)))
             return "".join(parts)
         if isinstance(e, ast.Call):
-            if self.hook is not None:
+            if self.hook is not None and id(e) not in self.__dict__.get("_hooked", ()):
                 r = self.hook(e, env, self)
                 if r is not UNKNOWN:
                     return r
+            r = self._method_call(e, env, depth)
+            if r is not UNKNOWN:
+                return r
+            if self.me is not None and isinstance(e.func, ast.Name) and not self._mentions_obj(e.func, env):
+                callee = self.ctx.folder.eval(e.func, self.module, env={k: v_ for k, v_ in env.items() if not isinstance(v_, (Obj, Stream, Bound))})
+                if isinstance(callee, ClassRef) and "__init__" in {n for k in callee.ci.mro() for n in k.methods} and not _is_data_type(callee.ci):
+                    args, kwargs = self._call_args(e, env, depth)
+                    return self.construct(callee.ci, args, kwargs, depth)
             fi = None
             if depth < self.max_depth and not self._mentions_obj(e.func, env):
                 if isinstance(e.func, ast.Name):
@@ -275,6 +495,12 @@ class Interp:
                     r_ = codec_apply(self.ctx, recv.ci, e.func.attr, [arg])
                     if r_ is not UNKNOWN:
                         return r_
+        if isinstance(e, ast.Call) and isinstance(e.func, ast.Attribute) and e.func.attr == "get" and 1 <= len(e.args) <= 2 and not e.keywords and not self._mentions_obj(e.func.value, env):
+            recv = self.ctx.folder.eval(e.func.value, self.module, env=env)
+            if isinstance(recv, ClassRef) and recv.ci.has_base_named("EnumMap") and "get" not in recv.ci.methods:
+                args = [self.ev(a, env, depth) for a in e.args]
+                if not any(isinstance(a, (Obj, Stream, Bound)) or a is UNKNOWN for a in args):
+                    return self.ctx.folder.enum_lookup(recv.ci, args[0], args[1] if len(args) == 2 else None)
         if isinstance(e, ast.Call):
             r_ = self._classmethod_call(e, env, depth)
             if r_ is not UNKNOWN:
@@ -285,8 +511,40 @@ class Interp:
             callee = self.ctx.folder.eval(e.func, self.module, env=env)
             if isinstance(callee, ClassRef) and not any(isinstance(a, ast.Starred) for a in e.args):
                 return Instance(callee.ci, [self.ev(a, env, depth) for a in e.args], {k.arg: self.ev(k.value, env, depth) for k in e.keywords if k.arg})
+        if isinstance(e, ast.Call) and isinstance(e.func, ast.Name) and e.func.id == "getattr" and "getattr" not in env and len(e.args) in (2, 3) and not e.keywords:
+            o, name = self.ev(e.args[0], env, depth), self.ev(e.args[1], env, depth)
+            if isinstance(name, str):
+                try:
+                    if isinstance(o, Obj):
+                        return self._obj_attr(o, name, depth)
+                    if isinstance(o, ClassRef):
+                        v = self.ctx.folder.class_attr(o.ci, name)
+                        if v is UNKNOWN and o.ci.lookup(name)[1] is None:
+                            raise AttributeError(name)
+                        if v is not UNKNOWN:
+                            return v
+                    elif o is None or isinstance(o, (int, str, bytes, float, list, tuple, dict)):
+                        return getattr(o, name)
+                except AttributeError:
+                    if len(e.args) == 3:
+                        return self.ev(e.args[2], env, depth)
+                    raise
+        if isinstance(e, ast.Attribute) and not isinstance(e.value, ast.Name) and self._mentions_obj(e.value, env):
+            base = self.ev(e.value, env, depth)
+            if isinstance(base, ClassRef):
+                v = self.ctx.folder.class_attr(base.ci, e.attr)
+                if v is not UNKNOWN:
+                    return v
         if isinstance(e, ast.Subscript):
             base = self.ev(e.value, env, depth)
+            if isinstance(base, ClassRef) and base.ci.has_base_named("EnumMap"):
+                k_ = self.ev(e.slice, env, depth)
+                if not isinstance(k_, (Obj, Stream, Bound)) and k_ is not UNKNOWN:
+                    miss = object()
+                    v = self.ctx.folder.enum_lookup(base.ci, k_, miss)
+                    if v is miss:
+                        raise KeyError(k_)
+                    return v
             if isinstance(base, (str, bytes, bytearray, list, tuple, dict)):
                 if isinstance(e.slice, ast.Slice):
                     lo = self.ev(e.slice.lower, env, depth) if e.slice.lower is not None else None
@@ -327,7 +585,7 @@ class Interp:
                     return getattr(recv_, e.func.attr)(*args)
         if isinstance(e, ast.Call) and isinstance(e.func, ast.Name) and e.func.id == "isinstance" and len(e.args) == 2 and "isinstance" not in env:
             kinds = {"str": (str,), "bytes": (bytes,), "bytearray": (bytearray,), "int": (int,), "float": (float,), "bool": (bool,), "list": (list,), "tuple": (tuple,), "dict": (dict,),
-                     "set": (set, frozenset), "Sequence": (list, tuple, str, bytes, range), "Mapping": (dict,), "Iterable": (list, tuple, str, bytes, dict, set, range)}
+                     "set": (set, frozenset), "Sequence": (list, tuple, str, bytes, range), "Mapping": (dict,), "Iterable": (list, tuple, str, bytes, dict, set, range), "Generator": ()}
             names = [ast.unparse(x).split(".")[-1] for x in (e.args[1].elts if isinstance(e.args[1], ast.Tuple) else [e.args[1]])]
             v0 = self.ev(e.args[0], env, depth) if not all(n_ in kinds for n_ in names) else None
             if isinstance(v0, str) and v0.startswith("<") and v0.endswith(">"):
@@ -581,9 +839,9 @@ class Interp:
         try:
             self.ev(e, env, depth)  # a call whose value is discarded: evaluate it for its effects on witness objects
             return
-        except _Unknown:
-            pass
-        raise _Unknown(f"call for effect: {ast.unparse(e)[:60]}")
+        except _Unknown as u:
+            why = u.why
+        raise _Unknown(f"{ast.unparse(e)[:40]} <- {why[-300:]}")
 
     def store(self, t, v, env, depth):
         if isinstance(t, ast.Name):
@@ -647,4 +905,38 @@ def run_function(ctx, module, func, env, call_hook=None, deep=True):
         return "unknown", u.why
     except (ArithmeticError, TypeError, ValueError, KeyError, IndexError, AttributeError) as err:
         # the witness makes a pure builtin operation fail: report it as the exception the code would raise
+        return "raise", type(err).__name__
+
+
+def fold_object(ctx, ci, args=(), kwargs=None, call_hook=None):
+    """('return', witness instance) | ('raise', name) | ('unknown', reason): class ci constructed on constants, its
+    constructor chain folded through the MRO."""
+    it = Interp(ctx, ci.module, call_hook)
+    return _guard(lambda: it.construct(ci, list(args), dict(kwargs or {})))
+
+
+def fold_method(ctx, obj, name, args=(), kwargs=None, call_hook=None):
+    """Fold obj.<name>(*args) on a witness instance made by fold_object (attribute `name` may also be a property)."""
+    ci = obj.__dict__["_ci"]
+    it = Interp(ctx, ci.module, call_hook)
+
+    def go():
+        dc, m = ci.lookup(name)
+        if not isinstance(m, ast.FunctionDef):
+            raise _Unknown(f"{ci.name}.{name} is not a method")
+        if any(getattr(d, "id", None) == "property" for d in m.decorator_list):
+            return it._invoke(dc, m, obj, [], {}, 0)
+        return it._invoke(dc, m, obj, list(args), dict(kwargs or {}), 0)
+
+    return _guard(go)
+
+
+def _guard(fn):
+    try:
+        return "return", fn()
+    except _Raise as r:
+        return "raise", r.name
+    except _Unknown as u:
+        return "unknown", u.why
+    except (ArithmeticError, TypeError, ValueError, KeyError, IndexError, AttributeError) as err:
         return "raise", type(err).__name__
